@@ -107,7 +107,7 @@ M("C03", "v2 back to old-line base (pre-fix shape)", F, "v2rewrite.py", "       
 M("C03", "v1 back to old-line base (pre-fix shape)", F, "v1rewrite.py", "        cur_line = new_lines[lineno]\n        new_lines[lineno] = cur_line[:span_l] + replacement + cur_line[span_r:]",
   "        cur_line = old_lines[lineno]\n        new_lines[lineno] = cur_line[:span_l] + replacement + cur_line[span_r:]", "lost update")
 M("C03", "v2 right-to-left order dropped", F, "v2rewrite.py", "in sorted(replacements, reverse=True):", "in sorted(replacements):", "match order")
-M("C03", "v2 returns although patterns missing", F, "v2rewrite.py", "    if set(patterns) == found_patterns:\n        return new_lines", "    if found_patterns:\n        return new_lines", "R2", allow_error=True)
+M("C03", "v2 returns although patterns missing", F, "v2rewrite.py", "    if set(patterns) == found_patterns:\n        return new_lines", "    if found_patterns:\n        return new_lines", "R2")
 M("C03", "v1 raise turned into return", F, "v1rewrite.py", "        raise rewrite.NoPatternMatch(\"Invalid pattern(s)\")\n    else:\n        return new_lines", "        return new_lines\n    else:\n        return new_lines", "R2")
 M("C03", "iter_matches stops after first match per pattern", F, "parse.py", "            if not _has_overlap(needle_span, matched_spans):\n                yield match\n            matched_spans.append(needle_span)",
   "            if not _has_overlap(needle_span, matched_spans):\n                yield match\n            matched_spans.append(needle_span)\n            break", "stop early")
@@ -199,7 +199,7 @@ M("C08", "twin: sorted staging order", S, "vcs.py", "        for filepath in fil
 M("C09", "scope branches swapped", F, "vcs.py", "        if branch_scope:\n            return vcs_api.ls_tags_branch()\n        else:\n            return vcs_api.ls_tags()", "        if branch_scope:\n            return vcs_api.ls_tags()\n        else:\n            return vcs_api.ls_tags_branch()", "scope")
 M("C09", "reverse=True dropped", F, "cli.py", "version_tags.sort(key=version.parse_version, reverse=True)", "version_tags.sort(key=version.parse_version)", "maximum")
 M("C09", "sort key removed", F, "cli.py", "version_tags.sort(key=version.parse_version, reverse=True)", "version_tags.sort(reverse=True)", "maximum")
-M("C09", "filter removed", F, "cli.py", "    return [tag for tag in all_tags if version_parser.is_valid(tag, version_pattern)]", "    return [tag for tag in all_tags if version_parser.is_valid(tag, version_pattern) or True]", "R3", allow_error=True)
+M("C09", "filter removed", F, "cli.py", "    return [tag for tag in all_tags if version_parser.is_valid(tag, version_pattern)]", "    return [tag for tag in all_tags if version_parser.is_valid(tag, version_pattern) or True]", "R3")
 M("C09", "default-scope compare flipped", F, "cli.py", "        if version.parse_version(latest_version_tag) <= version.parse_version(cfg.current_version):\n            # current_version already newer/up-to-date\n            return cfg",
   "        if version.parse_version(latest_version_tag) >= version.parse_version(cfg.current_version):\n            # current_version already newer/up-to-date\n            return cfg", "does not follow its rule")
 M("C09", "global scope also compares with config", F, "cli.py", "    if cfg.tag_scope == config.TagScope.DEFAULT:\n        logger.info(f\"Working dir version        : {cfg.current_version}\")", "    if cfg.tag_scope != config.TagScope.BRANCH:\n        logger.info(f\"Working dir version        : {cfg.current_version}\")", "R1", allow_error=True)
@@ -336,7 +336,7 @@ M("C17", "v1 successor only when calendar unchanged", F, "v1version.py", "    cu
 # =============================================================================== C18
 M("C18", "toml reader skips the defaults", F, "config.py", "    for option, default_val in BOOL_OPTIONS.items():\n        raw_cfg[option] = raw_cfg.get(option, default_val)\n\n    _set_raw_config_defaults(raw_cfg)\n", "    for option, default_val in BOOL_OPTIONS.items():\n        raw_cfg[option] = raw_cfg.get(option, default_val)\n", "_set_raw_config_defaults")
 M("C18", "ini booleans: 'on' dropped", F, "config.py", "val = val.lower() in (\"yes\", \"true\", \"1\", \"on\")", "val = val.lower() in (\"yes\", \"true\", \"1\")", "spellings")
-M("C18", "ini booleans: case-sensitive", F, "config.py", "val = val.lower() in (\"yes\", \"true\", \"1\", \"on\")", "val = val in (\"yes\", \"true\", \"1\", \"on\")", "spelling", allow_error=True)
+M("C18", "ini booleans: case-sensitive", F, "config.py", "val = val.lower() in (\"yes\", \"true\", \"1\", \"on\")", "val = val in (\"yes\", \"true\", \"1\", \"on\")", "spelling")
 M("C18", "self-pattern parser forgets [tool.bumpver]", F, "config.py", "        elif line.strip() == \"[tool.bumpver]\":\n            is_config_section = True\n", "", "header literals")
 M("C18", "tag without commit accepted", F, "config.py", "    if tag and not commit:\n        raise ValueError(\"commit=True required if tag=True\")\n", "", "without commit")
 M("C18", "toml loop uses its own table", F, "config.py", "    for option, default_val in BOOL_OPTIONS.items():\n        raw_cfg[option] = raw_cfg.get(option, default_val)", "    for option, default_val in {'commit': False, 'tag': False, 'push': False}.items():\n        raw_cfg[option] = raw_cfg.get(option, default_val)", "shared BOOL_OPTIONS")
